@@ -12,23 +12,23 @@ INJ_NOTE = ("trusted: go/ssa, the symbolic interpreter (fork of x/tools go/ssa/i
 INJ_TECH = "symbolic execution of each generated injector's go/ssa into a partial-order SMT encoding (clock per event); z3 decides every schedule/fault/cancel instant; bounded enumeration of declarations"
 
 CHECKS = {
- "C01": ("model_checking", "for every enumerated declaration the generator (built from the current tree) emits an injector whose go/ssa is encoded with one occurrence bit and one integer clock per event; read-before-write, unordered write/read and write/write pairs and 'entered before its producer returned' are UNSAT for all interleavings/latencies (thorough: also all failure sets and cancellation instants)", INJ_NOTE, INJ_TECH, "§5 C01"),
+ "C01": ("model_checking", "for every enumerated declaration the generator (built from the current tree) emits an injector whose go/ssa is encoded with one occurrence bit and one integer clock per event; read-before-write, unordered write/read and write/write pairs and 'entered before its producer returned' are UNSAT for all interleavings/latencies (thorough: also all failure sets and cancellation instants); the order obligation is stated twice: from the generated code's data flow and from the declaration's dependency relation (every provider below a consumer has an exit before the consumer's enter in every execution)", INJ_NOTE, INJ_TECH, "§5 C01"),
  "C02": ("translation_validation", "result term and every provider's argument terms of the generated injector (uninterpreted provider functions, all interleavings) are proved equal to an independent reference evaluation of the abstract declaration; needed providers invoked exactly once, unneeded never; all Async subsets / Set groupings / parameter orders compare against the same reference", INJ_NOTE, INJ_TECH + "; term equality against a reference evaluator", "§5 C02"),
  "C03": ("model_checking", "stuck-state query (no reachable final state without return), double close and join-at-return queries are UNSAT for all interleavings of fault-free, uncancelled runs; the all-success execution must be SAT (vacuity guard)", INJ_NOTE, INJ_TECH, "§5 C03"),
- "C05": ("model_checking", "existential: for every declaration with input-free Async providers the solver must find a schedule in which all of them overlap, and one in which each is entered before any other Async provider returned; UNSAT is the violation", INJ_NOTE, INJ_TECH, "§5 C05"),
- "C06": ("model_checking", "with every subset of fallible providers failing and the caller never cancelling: nil-error returns, returned errors not produced by an invoked provider, invocation of dependents of a failed provider and non-termination are UNSAT for all interleavings and select choices; one genuine defect (K1) is a listed known finding", INJ_NOTE, INJ_TECH, "§5 C06"),
- "C07": ("model_checking", "with the caller cancelling at a free instant (including before the call): stuck states and nil-error returns of a value different from the reference term are UNSAT for all interleavings; two genuine defects of no-error injectors (K2a hang, K2b zero value) are listed known findings", INJ_NOTE, INJ_TECH, "§5 C07"),
- "C08": ("model_checking", "after the injector's return, in a final state where the caller acts no more, no spawned goroutine stands before a disabled blocking event — for all failure sets, cancellation instants and interleavings; one genuine defect (K3) is a listed known finding", INJ_NOTE, INJ_TECH, "§5 C08"),
- "C12": ("other", "bounded symbolic execution of the real VarPool code (go/ssa) over all operation histories up to the stated length with symbolic names; every freshness obligation is an SMT query that must be unsat; the defect it found was fixed (fix: 70d0e03); naming gate through the CLI over the adversarial-name family FN and the transitive-package family FT (generator-introduced import names included in the hygiene check)",
+ "C05": ("model_checking", "existential: for every declaration with input-free Async providers the solver must find a schedule in which all of them overlap, and one in which each is entered before any other Async provider returned; UNSAT is the violation; lemma: the real collection.Queue used by the topological sort is FIFO for every Push/Pop sequence of length 13 (thorough 16) with arbitrary values (counterexamples replayed natively)", INJ_NOTE, INJ_TECH, "§5 C05"),
+ "C06": ("model_checking", "with every subset of fallible providers failing and the caller never cancelling: nil-error returns, returned errors not produced by an invoked provider, invocation of dependents of a failed provider and non-termination are UNSAT for all interleavings and select choices; one genuine defect (K1) is a listed known finding; the 'returns a non-nil error' clause is also queried with the caller's cancellation instant free; errgroup.SetLimit and ctx.Err() probes are part of the encoding; known finding K1 is pinned to the corpus inputs it occurs on", INJ_NOTE, INJ_TECH, "§5 C06"),
+ "C07": ("model_checking", "with the caller cancelling at a free instant (including before the call): stuck states and nil-error returns of a value different from the reference term are UNSAT for all interleavings; two genuine defects of no-error injectors (K2a hang, K2b zero value) are listed known findings; the partial-result clause is also queried with provider failures free; known findings K2a/K2b are pinned to the corpus inputs they occur on, and a hang at another site of the same injector is searched for separately", INJ_NOTE, INJ_TECH, "§5 C07"),
+ "C08": ("model_checking", "after the injector's return, in a final state where the caller acts no more, no spawned goroutine stands before a disabled blocking event — for all failure sets, cancellation instants and interleavings; one genuine defect (K3) is a listed known finding; known finding K3 is pinned to the corpus inputs it occurs on: the same site on any other input is reported", INJ_NOTE, INJ_TECH, "§5 C08"),
+ "C12": ("other", "bounded symbolic execution of the real VarPool code (go/ssa) over all operation histories up to the stated length with symbolic names; every freshness obligation is an SMT query that must be unsat; the defect it found was fixed (fix: 70d0e03); naming gate through the CLI over the adversarial-name family FN and the transitive-package family FT (generator-introduced import names included in the hygiene check); the same obligations one level up through InjectorParam.Name/ChannelName (either order) so that any allocator entry point behind them is covered; multi-file programs are generated both in one invocation and file by file",
          "trusted: go/ssa, the interpreter fork, fmt.Sprintf stub (str.++/itoa), map-as-update-log model, SMT solvers (portfolio z3 4.8.12 / z3 5.1.0 / cvc5 1.0, first definite answer); names restricted to ASCII identifiers within the length bound",
          "symbolic execution of go/ssa + SMT strings — solver verdict over all names within bounds", "§5 C12"),
 }
 
 KNOTE = "trusted: go/ssa, the interpreter fork, the filesystem stubs of DESIGN §4 (each os call fails without effect or has its POSIX effect; Rename atomic; crash = nothing further applied), embed.FS read from the working tree; C15 counterexamples are replayed natively (install.go compiled with its os calls routed through a fault-injection shim; the installer process is killed at the crash step / the step fails) and the stubs are validated against the real OS on a sample of model paths; C16 counterexamples carry the operation trace of the model"
-CHECKS["C15"] = ("other", "symbolic execution of the real Install/InstallFile (go/ssa incl. deferred cleanup) with crash position and failing step as symbolic integers decided by z3: every crash point between/inside the filesystem steps and every single injected fault over the whole embedded tree is covered path-completely; per path the model filesystem must show every destination untouched or complete with mode 0644, failures reported, no temp file left, fault-free run complete; base states: destination absent, directory present, previous installation present (older content): on an error return a previously installed file must still be there (previous or new content), evaluated on the effective filesystem (written, removed, prior)", KNOTE, "symbolic execution of go/ssa with a nondeterministic filesystem stub; crash/fault positions are solver-decided symbolic integers", "§5 C15")
-CHECKS["C16"] = ("other", "symbolic execution of the real Install/ResolvePath/ValidatePath and agent methods for all 9 agents with --path, $HOME and cwd as symbolic strings: every mutating filesystem event is proved (unsat str.prefixof query) to lie under <base>/<skill name> with base taken from the README table parsed at check time; installed tree = on-disk skill tree; registry = kong sub-commands = README list; the process umask is an environment parameter of the filesystem model ({022,027,077} wherever a file is created with an explicit permission); every (agent, --user, --path kind, base state) case is also pushed through the CLI built from the working tree on concrete HOME/cwd/--path (and under umask 077) and judged by the same README-derived expectation", KNOTE, "symbolic execution of go/ssa with symbolic path strings; SMT string prefix/equality queries (portfolio)", "§5 C16")
+CHECKS["C15"] = ("other", "symbolic execution of the real Install/InstallFile (go/ssa incl. deferred cleanup) with crash position and failing step as symbolic integers decided by z3: every crash point between/inside the filesystem steps and every single injected fault over the whole embedded tree is covered path-completely; per path the model filesystem must show every destination untouched or complete with mode 0644, failures reported, no temp file left, fault-free run complete; base states: destination absent, directory present, previous installation present (older content): on an error return a previously installed file must still be there (previous or new content), evaluated on the effective filesystem (written, removed, prior); every state a crashed or failed run leaves behind is followed by a fault-free run in the model, which must complete the installation (the native replay performs the second run as well)", KNOTE, "symbolic execution of go/ssa with a nondeterministic filesystem stub; crash/fault positions are solver-decided symbolic integers", "§5 C15")
+CHECKS["C16"] = ("other", "symbolic execution of the real Install/ResolvePath/ValidatePath and agent methods for all 9 agents with --path, $HOME and cwd as symbolic strings: every mutating filesystem event is proved (unsat str.prefixof query) to lie under <base>/<skill name> with base taken from the README table parsed at check time; installed tree = on-disk skill tree; registry = kong sub-commands = README list; the process umask is an environment parameter of the filesystem model ({022,027,077} wherever a file is created with an explicit permission); every (agent, --user, --path kind, base state) case is also pushed through the CLI built from the working tree on concrete HOME/cwd/--path (and under umask 077) and judged by the same README-derived expectation; environment variables other than HOME are arbitrary symbolic strings (native: XDG_*_HOME set elsewhere)", KNOTE, "symbolic execution of go/ssa with symbolic path strings; SMT string prefix/equality queries (portfolio)", "§5 C16")
 
-CHECKS["C09"] = ("other", "path-complete bounded execution of the real detectCycles (every edge relation over n nodes, diagnostics must be a closed walk naming its types), the real NewGraph (every small declaration over type tokens against a reference for duplicate / orphan Struct / reachable cycle) and the real Processor.ProcessFiles with ParseFile/CreateInjector/os.Create/Generate failing at every position (refusal => no output created, non-nil error; main => exit 1); plus CLI gates: planted-invalid declarations refused with the stale output file untouched, valid corpus declarations accepted with one function each",
+CHECKS["C09"] = ("other", "path-complete bounded execution of the real detectCycles (every edge relation over n nodes, diagnostics must be a closed walk naming its types), the real NewGraph (every small declaration over type tokens against a reference for duplicate / orphan Struct / reachable cycle) and the real Processor.ProcessFiles with ParseFile/CreateInjector/os.Create/Generate failing at every position (refusal => no output created, non-nil error; main => exit 1); plus CLI gates: planted-invalid declarations refused with the stale output file untouched, valid corpus declarations accepted with one function each; type tokens are real go/types types, two of them with equal type and package names but different import paths",
   "trusted: go/ssa, the interpreter fork, stubs for the parser/generator/os.Create under processFile; refusals arising inside the parser (Bind, field extraction, Set flattening) are reached only by the CLI gates (go/types and packages.Load are not executable in the interpreter); bounds: graphs <= 4 nodes, <= 3 providers over <= 3 type tokens, 2 files",
   "symbolic interpreter over go/ssa: path-complete bounded execution (forks on nondeterministic inputs; the quantifier is program structure, so solver work is feasibility only) + CLI gates", "§5 C09")
 
